@@ -79,6 +79,9 @@ func runOne(t *testing.T, opts Options, prefix []Choice, body Body, logEvents bo
 				res.div = fmt.Sprintf("execution ended after %d choice points but the prefix has %d", s.pos, len(s.prefix))
 			}
 			res.events = s.events
+			if len(s.panics) > 0 && !s.panicsRead && res.panicV == nil {
+				res.panicV = "scheduled thread panicked: " + s.panics[0]
+			}
 			if s.redundant {
 				res.status = Redundant
 			}
